@@ -1,9 +1,10 @@
 #!/usr/bin/env python3
 """C18 - diagnostics point at the construct they complain about.
 
-On the perturbed projects of C10 (generator and renderer imported from c10.py), laid out with varying
+On the perturbed projects of C10 (generator imported from c10.py, renderer c18layout.py), laid out with varying
 indentation, blank lines, free comments, multibyte text, other comments in front of an annotation
-on the same line, several controllers per file and several files: every diagnostic of
+on the same line, result lists spread over several lines, the same annotated method at two places of a
+project (same file or another one), several controllers per file and several files: every diagnostic of
 pipeline.Validate() (implrun diagtree: the unflattened entity tree) is checked by the oracle
 prop_C18_diag (file, range inside file and construct, covered text = value, code/severity), the
 list and the error text are checked for duplicates (prop_C18_list, prop_C18_text), and the model
@@ -23,6 +24,7 @@ sys.path.insert(0, os.path.dirname(os.path.abspath(__file__)))
 from common import *  # noqa
 import project as P
 import c10
+import c18layout
 
 PROP = "C18"
 
@@ -34,9 +36,16 @@ COMMENT_CODES = {"annotation-unknown", "annotation-invalid-in-context", "annotat
                  "linker-path-annotation-invalid-reference", "linker-duplicate-path-param",
                  "linker-duplicate-path-alias-ref", "linker-duplicate-url-parameter", "controller-missing-tag",
                  "route-conflict"}
-DECL_CODES = {"linker-unreferenced-parameter", "receiver-invalid-body", "receiver-parameter-not-primitive",
-              "receiver-return-values-invalid-signature", "receiver-return-value-is-not-an-error",
-              "receiver-missing-security"}
+PARAM_CODES = {"linker-unreferenced-parameter", "receiver-invalid-body", "receiver-parameter-not-primitive"}
+RET_CODES = {"receiver-return-values-invalid-signature", "receiver-return-value-is-not-an-error",
+             "receiver-missing-security"}
+DECL_CODES = PARAM_CODES | RET_CODES
+
+# return types whose EARLIER value is the longer text (with a wrapped result list the end column of the last
+# value is then smaller than that of an earlier one); all of them end in a diagnostic about the return values
+EXTRA_RETS = [["RForeignStruct", "RPlain"], ["RLocalStruct", "RPlain"], ["RLocalEmbeds", "RPlain"],
+              ["RForeignStruct", "RPlain", "RError"], ["RLocalStruct", "RError", "RPlain"],
+              ["RForeignStruct", "RLocalStruct"]]
 
 KNOWN_CLASSES = {"entity-per-error-diagnostic": "an entity with k error diagnostics is printed k times in the error text",
                  "children-printed-under-parent": "a parent with an error diagnostic prints its descendants' diagnostics, "
@@ -64,7 +73,39 @@ def vary_layout(rng, r):
             a["descr"] = rng.choice(["plain text", rng.choice(MB) + " desc", "x " + rng.choice(MB)])
         if rng.random() < 0.15:                           # another comment of the group on the same line, in front
             a["before"] = "/* %s */ " % rng.choice(MB + ["a"])
+    if len(r["rets"]) >= 2 and rng.random() < 0.5:
+        r["retwrap"] = gen_retwrap(rng, len(r["rets"]))
     return r
+
+
+def gen_retwrap(rng, n):
+    """A result list of n values spread over several lines (see c18layout): at least one line feed."""
+    while True:
+        w = {"open": rng.random() < 0.6, "seps": [rng.random() < 0.7 for _ in range(n - 1)], "close": rng.random() < 0.6,
+             "cind": rng.choice(["\t", "\t", "\t\t", "    ", ""])}
+        if w["open"] or w["close"] or any(w["seps"]):
+            return w
+
+
+def twin_of(rng, r, nfiles):
+    """The same annotated method a second time in the project (other name, other first route segment, other place:
+    every comment line except @Route has the same TEXT at another position).  None when the route cannot be told
+    apart by its first segment."""
+    t = copy.deepcopy(r)
+    t["name"] = r["name"] + "Tw"
+    for a in t["attrs"]:
+        if a["k"] == "Route":
+            v2 = re.sub(r"^/([A-Za-z0-9_-]+)", lambda m: "/" + m.group(1) + "tw", a["v"], 1)
+            if v2 == a["v"]:
+                return None
+            a["v"] = v2
+    t["indent"] = rng.choice(["", "\t", "  ", "      "])
+    t["gap"] = rng.choice([1, 2, 4])
+    t["lead"] = [rng.choice(["twin", "twin " + rng.choice(MB)]) for _ in range(rng.choice([0, 1, 3]))]
+    t["file"] = rng.randrange(nfiles)
+    t["pert"] = list(r.get("pert", [])) + ["twin"]
+    t["twin_of"] = r["name"]
+    return t
 
 
 def make_projects(rng, routes, per=24):
@@ -86,6 +127,11 @@ def make_projects(rng, routes, per=24):
             r2["ctl"] = byp[r["prefix"]]
             r2["file"] = rng.randrange(nfiles)
             rs.append(r2)
+            # more often when an annotation carries a properties object (its own positional data)
+            if rng.random() < (0.5 if any(a.get("alias") or a.get("xprop") for a in r2["attrs"]) else 0.1):
+                tw = twin_of(rng, r2, nfiles)
+                if tw is not None:
+                    rs.append(tw)
         projects.append({"controllers": ctls, "routes": rs})
     return projects
 
@@ -116,7 +162,27 @@ def deliberate_projects():
                      mk("VerbLower", [A("Method", "get"), A("Route", "/vl")], [], ["RError"]),
                      mk("VerbMixed", [A("Method", "Post"), A("Route", "/vm")], [], ["RError"]),
                      mk("VerbHead", [A("Method", "HEAD"), A("Route", "/vh")], [], ["RError"])]}
-    return [p1, p2, p3]
+    # the same annotation line with a properties object at several places: below in the same file, in another file
+    pa = lambda n, route, extra: dict(mk(n, [A("Method", "GET"), A("Route", route), nonstr("id", 5)],
+                                         [{"name": "id", "base": "TPrim", "shape": "SPlain"}], ["RError"]), **extra)
+    p4 = {"controllers": [{"name": "Ctl0", "prefix": "/c"}],
+          "routes": [pa("PropsFirst", "/pf/{id}", {"file": 0}),
+                     pa("PropsBelow", "/pb/{id}", {"file": 0, "indent": "\t", "gap": 3, "lead": ["below " + MB[1]]}),
+                     pa("PropsOtherFile", "/po/{id}", {"file": 1, "indent": "  ", "lead": ["elsewhere", "second line"]}),
+                     pa("PropsOtherFileB", "/pq/{id}", {"file": 1, "gap": 2})]}
+    # result lists spread over several lines, the longer type first / last, with a diagnostic about the return values
+    wr = lambda n, rets, w, extra={}: dict(mk(n, [A("Method", "GET"), A("Route", "/" + n.lower())], [], rets),
+                                           retwrap=dict({"cind": "\t"}, **w), **extra)
+    p5 = {"controllers": [{"name": "Ctl0", "prefix": "/c"}],
+          "routes": [wr("WrapAll", ["RForeignStruct", "RPlain"], {"open": True, "seps": [True], "close": True}),
+                     wr("WrapThree", ["RForeignStruct", "RPlain", "RError"], {"open": False, "seps": [True, True], "close": False}),
+                     wr("WrapTail", ["RPlain", "RLocalStruct"], {"open": False, "seps": [True], "close": False},
+                        {"indent": "\t"}),
+                     wr("WrapMixed", ["RLocalStruct", "RError", "RPlain"], {"open": True, "seps": [False, True], "close": True,
+                                                                           "cind": "    "}),
+                     wr("WrapFine", ["RLocalStruct", "RError"], {"open": True, "seps": [True], "close": True}),
+                     wr("OneLine", ["RForeignStruct", "RPlain"], {"open": False, "seps": [False], "close": False})]}
+    return [p1, p2, p3, p4, p5]
 
 
 # ------------------------------------------------------------------ running
@@ -138,7 +204,7 @@ def run_projects(projects, workdir):
     jobs, layouts = [], []
     for k, pr in enumerate(projects):
         root = os.path.join(workdir, "p%d" % k)
-        layouts.append(c10.render_lproject(pr, root, "verifproj/p%d" % k))
+        layouts.append(c18layout.render_lproject(pr, root, "verifproj/p%d" % k))
         jobs.append({"dir": root, "config": "gleece.json"})
     with concurrent.futures.ThreadPoolExecutor(max_workers=14) as ex:
         outs = list(ex.map(run_diagtree, jobs))
@@ -178,6 +244,16 @@ def expected_value(d, lay):
                 return re.match(r"// @Route\(([^,)]*)", a["text"]).group(1)
         return None
     elif code == "annotation-properties-invalid-value-for-key" and d["severity"] == 1:
+        # the properties object of the annotation the message names (annotation name + printed value of `name`),
+        # found in the comment by its text, wherever the diagnostic points
+        mm = re.match(r"Invalid value for property 'name' in attribute (\w+) \('(.*)'\)$", msg)
+        cands = set()
+        for a in (lay["attrs"] if mm else []):
+            ma = re.match(r"// @(\w+)\(.*?(\{.*\})\)", a["text"])
+            if ma and ma.group(1) == mm.group(1) and re.search(r"name:\s*%s\s*[,}]" % re.escape(mm.group(2)), ma.group(2)):
+                cands.add(ma.group(2))
+        if len(cands) == 1:
+            return cands.pop()
         for a in lay["attrs"]:
             if a["line"] == d["start_line"]:
                 mm = re.search(r"\{.*\}", a["text"])
@@ -187,7 +263,17 @@ def expected_value(d, lay):
 
 
 def region_of(d, lay, file_lines):
+    """The construct a diagnostic concerns: the doc comment for annotation-related codes; for a code about the
+    parameters the parameter list, for a code about the return values the result list, of the declaration."""
     code = d["code"]
+    # the validators use the return-signature code for two rules about PARAMETERS as well (a second body, a form
+    # field next to a body: "Body parameter is invalid, ..." / "Form parameter is invalid, ...", on the parameter)
+    about_param = code in PARAM_CODES or (code == "receiver-return-values-invalid-signature"
+                                          and re.match(r"(Body|Form) parameter is invalid", d["message"]))
+    if about_param and lay.get("paramlist"):
+        return lay["paramlist"]
+    if code in RET_CODES and not about_param and lay.get("retlist"):
+        return lay["retlist"]
     if code in DECL_CODES:
         l0, l1 = lay["decl"]
         return (l0, 0, l1, len(file_lines[l1]) if l1 < len(file_lines) else 0)
@@ -272,7 +358,8 @@ def coq_entity(e):
 def coq_layout(lay):
     attrs = coq_list(["(mkC %d %d %s)" % (a["line"], a["col"], coq_bytes(a["text"])) for a in lay["attrs"]])
     params = coq_list([coq_rng(p) for p in lay["params"]])
-    return "(mkLy %s %s %s)" % (attrs, params, coq_rng(lay["rets"]))
+    # RetValsRange is the model's: from the single return values, in declaration order
+    return "(mkLy %s %s (rets_range %s))" % (attrs, params, coq_list([coq_rng(v) for v in lay.get("retvals", [])]))
 
 
 COQ_HEADER = c10.COQ_HEADER.replace("Model.Linker.", "Model.Linker Model.Diag.") + """
@@ -439,6 +526,7 @@ def strip_project(pr):
     return {"controllers": pr["controllers"],
             "routes": [dict(c10.strip_route(dict(r, prefix=r.get("prefix", ""))), ctl=r["ctl"], file=r.get("file", 0),
                             indent=r.get("indent", ""), gap=r.get("gap", 1), lead=r.get("lead", []),
+                            **({"retwrap": r["retwrap"]} if c18layout.wrap_of(r) else {}),
                             attrs=[{k: v for k, v in a.items()} for a in r["attrs"]]) for r in pr["routes"]]}
 
 
@@ -462,6 +550,9 @@ def main():
         singles = []
         for b in base:
             singles += [x for (_, x) in c10.single_perturbations(b)]
+            for rv in EXTRA_RETS:
+                if rv != b["rets"]:
+                    singles.append(dict(copy.deepcopy(b), rets=list(rv), pert=b["pert"] + ["rets:" + ",".join(rv)], at=None))
         rng.shuffle(singles)
         routes = [copy.deepcopy(b) for b in base] + singles[:nsingle] + c10.deliberate_routes()
         c10.rename_unique(routes)
@@ -595,11 +686,18 @@ def main():
                        "implementation_output": {"tree": outs[k].get("tree"), "error_text": outs[k].get("error_text")},
                        "note": "model and implementation disagree; the oracle found no failing diagnostic"}, no_input=True)
 
-    layouts_dist = {"indent": {}, "multibyte_description": 0, "comment_in_front": 0, "files": {}, "controllers_per_project": {}}
+    layouts_dist = {"indent": {}, "multibyte_description": 0, "comment_in_front": 0, "files": {}, "controllers_per_project": {},
+                    "result_list_on_several_lines": 0, "twins_same_file": 0, "twins_other_file": 0}
     for pr in projects:
         for r in pr["routes"]:
             layouts_dist["indent"][repr(r.get("indent", ""))] = layouts_dist["indent"].get(repr(r.get("indent", "")), 0) + 1
             layouts_dist["files"][str(r.get("file", 0))] = layouts_dist["files"].get(str(r.get("file", 0)), 0) + 1
+            if c18layout.wrap_of(r):
+                layouts_dist["result_list_on_several_lines"] += 1
+            if r.get("twin_of"):
+                first = next((x for x in pr["routes"] if x["name"] == r["twin_of"]), None)
+                same = first is not None and first.get("file", 0) == r.get("file", 0)
+                layouts_dist["twins_same_file" if same else "twins_other_file"] += 1
             for a_ in r["attrs"]:
                 if any(ord(ch) > 127 for ch in a_.get("descr", "")):
                     layouts_dist["multibyte_description"] += 1
@@ -611,7 +709,9 @@ def main():
         "evaluations": ndiag, "distinct_nontrivial": len(set(json.dumps(r["d"], sort_keys=True) for rs in results for r in rs["od"])),
         "rule": "the perturbed routes of C10 (all single perturbations of seeded well-formed routes, sampled) rendered with "
                 "random indentation, blank lines, free comments, multibyte descriptions, another comment in front of an "
-                "annotation on the same line, 2-3 files and several controllers per file; every diagnostic of "
+                "annotation on the same line, result lists spread over several lines (line feed after the parenthesis, "
+                "after any comma, in front of the closing parenthesis), the same annotated method a second time in the "
+                "project (same or other file), 2-3 files and several controllers per file; every diagnostic of "
                 "pipeline.Validate() is one evaluation; distinct by (code, message, file, range)",
         "samples": [results[0]["od"][i]["d"] for i in range(min(3, len(results[0]["od"])))] if results else [],
         "traces_validated_against_impl": sum(len(rs["corr"]) for rs in results) - len(corr_bad),
@@ -624,8 +724,9 @@ def main():
     })
     res.assumptions += [
         "columns are byte columns of the source line (go/token), 0-based; the covered text is read back from the file by bytes",
-        "the region a diagnostic must lie in is the doc comment block for annotation-related codes and the declaration "
-        "(func line to closing brace / type declaration) for parameter and return-type codes",
+        "the region a diagnostic must lie in is the doc comment block for annotation-related codes; for a code about "
+        "the parameters the parameter list and for a code about the return values the result list (parentheses "
+        "included) of the method's declaration",
         "a route whose validation ends in a Go error (C10 classes value clash / foreign error type / unknown annotation "
         "naming a parameter) produces no diagnostics and is left out",
     ]
